@@ -187,10 +187,10 @@ PROPS = {
         "facts": ['clause_kinds_covered'],
         "nt_rule": "unsat_graph",
         "level": "proof", "module": "Resolvo.Props.C03",
-        "imports": ["Resolvo.RenderTruth", "Resolvo.MDet.CheckedProofs"],
-        "theorems": ["Resolvo.C03.unsat_graph_checked", "Resolvo.MDet.solveChecked_unsat_graph", "Resolvo.C03.edges_truthful", "Resolvo.Render.buildGraph_edges_true", "Resolvo.Render.ginv_addClause", "Resolvo.C03.refutes_exact", "Resolvo.C03.learnt_from_antecedents", "Resolvo.C03.clauses_truthful", "Resolvo.Graph.graphRefutes_iff"],
+        "imports": ["Resolvo.RenderTruth", "Resolvo.MDet.CheckedProofs", "Resolvo.MDet.ModelGraph", "Resolvo.MDet.TruthSpec", "Resolvo.MDet.Truth"],
+        "theorems": ["Resolvo.C03.edges_truthful_exact_model", "Resolvo.C03.model_clauses_truthful", "Resolvo.MDet.solveRun_tinv", "Resolvo.MDet.wfuB_sound", "Resolvo.Render.buildGraph_kinds_true", "Resolvo.C03.unsat_graph_checked", "Resolvo.MDet.solveChecked_unsat_graph", "Resolvo.C03.edges_truthful", "Resolvo.Render.buildGraph_edges_true", "Resolvo.Render.ginv_addClause", "Resolvo.C03.refutes_exact", "Resolvo.C03.learnt_from_antecedents", "Resolvo.C03.clauses_truthful", "Resolvo.Graph.graphRefutes_iff"],
         "families": [("solve", SOLVE_Q), ("soft", SOFT_Q), ("lazy", LAZY_Q), ("hints", HINTS_Q)],
-        "explanation": "PROVED (Lean, all universes / problems / solver states / fuel): unsat_graph_checked - every Unsolvable answer of the checked deterministic model of Solver::solve comes with a conflict graph (the exact model of Conflict::graph applied to the blamed clauses of the accepted history) in which every edge states a true fact of the provider's data, every node is reachable from the root, and the facts shown in the graph alone, with one-solvable-per-package for forbid-joined nodes, admit no selection that installs the root (the last two are decided on the graph inside the checked model by reachableB and the verified DPLL; an objection is the explicit outcome checkFailed, which has not occurred on any generated case). PROVED (all universes / accepted histories / blamed clause sets): edges_truthful - every edge of the conflict graph built by the exact model of Conflict::graph (Render.buildGraph: same nodes, edges and petgraph insertion order as the real graph) from clauses of an accepted history states a true fact of the provider's data (first sentence of C03, edge by edge); the refutation oracle is exact (verified DPLL on a formula read from the graph alone); learnt clauses of accepted histories are entailed by their recorded antecedents; all clauses of accepted histories have true provenance. CHECKED PER RUN on every Unsolvable answer: each edge of the implementation's ConflictGraph against the provider tables, reachability from the root, graphRefutes, and that the clause ids blamed by the Conflict refute the root on their own and contain no learnt clause. TIE: the edges of the ordered graph model and the message rendered from it equal the real graph's edges and the real message on every generated conflict. NOT PROVED: reachability of every node and refutation for every blamed set (decided exactly per run).",
+        "explanation": "PROVED (Lean, exact model, no checker in between; all universes satisfying the decidable provider contract WFU - candidates carry their package's name, locked / excluded solvables are candidates -, all problems, solver states carried over from earlier solves incl. cache, cancellation plan, asynchronous completion order, fuel, all sets of blamed clauses): edges_truthful_exact_model - every edge of the conflict graph that the exact model of Conflict::graph builds from the clause arena and variable map of the exact model of Solver::solve states a true fact of the provider's data; the invariant behind it (solveRun_tinv / model_clauses_truthful: every clause the model ever allocates - requires, constrains, lock, exclusion, forbid - states a fact the provider gave) is carried through every function of the model, synchronous and asynchronous, by a Hoare logic over the model's monad (MDet/Truth.lean, MDet/TruthSpec.lean). TIE: the model's clause kinds and variable origins equal the implementation's on every case (mdet-trace) and the graph built from the model's own final state equals the implementation's graph on every generated conflict (mdet-graph-own); the driver evaluates WFU (wfuB) on every generated universe. PROVED (Lean, all universes / problems / solver states / fuel): unsat_graph_checked - every Unsolvable answer of the checked deterministic model of Solver::solve comes with a conflict graph (the exact model of Conflict::graph applied to the blamed clauses of the accepted history) in which every edge states a true fact of the provider's data, every node is reachable from the root, and the facts shown in the graph alone, with one-solvable-per-package for forbid-joined nodes, admit no selection that installs the root (the last two are decided on the graph inside the checked model by reachableB and the verified DPLL; an objection is the explicit outcome checkFailed, which has not occurred on any generated case). PROVED (all universes / accepted histories / blamed clause sets): edges_truthful - every edge of the conflict graph built by the exact model of Conflict::graph (Render.buildGraph: same nodes, edges and petgraph insertion order as the real graph) from clauses of an accepted history states a true fact of the provider's data (first sentence of C03, edge by edge); the refutation oracle is exact (verified DPLL on a formula read from the graph alone); learnt clauses of accepted histories are entailed by their recorded antecedents; all clauses of accepted histories have true provenance. CHECKED PER RUN on every Unsolvable answer: each edge of the implementation's ConflictGraph against the provider tables, reachability from the root, graphRefutes, and that the clause ids blamed by the Conflict refute the root on their own and contain no learnt clause. TIE: the edges of the ordered graph model and the message rendered from it equal the real graph's edges and the real message on every generated conflict. NOT PROVED: reachability of every node and refutation for every blamed set (decided exactly per run).",
     },
     "C04": {
         "nt_rule": "any",
